@@ -1,7 +1,8 @@
 (* C08 - the layer tree mirrors the file's record order, and saving restores that order.
    Model: Tree/Build.v (PSDImage._init loop, constructor outcome, _build_record_tree, kind dispatch).
    All statements are for every record sequence / every forest: any length, any nesting depth. *)
-From PsdV Require Import Base.Prelude Tree.Forest Tree.Build Tree.BuildProofs.
+From PsdV Require Import Base.Prelude Psd.Codec Psd.Model Tree.Forest Tree.Build Tree.BuildProofs Tree.File Tree.FileProofs.
+From Coq Require Import Permutation.
 
 (* ---- flatten then build: any forest that opening can produce (classes agree with the records,
    every group closed), of any depth *)
@@ -120,3 +121,68 @@ Example ex_priority :
   classify (ex_l 0 [24; 10]) = KTab 10 /\ classify (mkRec 0 None None false [26; 6]) = KTab 6 /\
   classify (mkRec 0 (Some DOther) None false [26]) = KPixel.
 Proof. repeat split; reflexivity. Qed.
+
+(* ---- the dispatch sees the SET of deciding keys only: TaggedBlocks is an ordered dict, but neither the order of a
+   record's blocks nor blocks with other keys can change the class *)
+Theorem classify_depends_on_deciding : forall r r',
+  (forall t, In t KIND_TAGS -> has t r = has t r') -> pdi r = pdi r' -> classify r = classify r'.
+Proof. exact classify_depends_on_deciding. Qed.
+Print Assumptions classify_depends_on_deciding.
+
+Theorem classify_block_order_irrelevant : forall r r',
+  Permutation (tags r) (tags r') -> pdi r = pdi r' -> classify r = classify r'.
+Proof. exact classify_perm. Qed.
+Print Assumptions classify_block_order_irrelevant.
+
+Theorem classify_ignores_other_blocks : forall r pre t post,
+  ~ In t KIND_TAGS -> classify (set_tags r (pre ++ t :: post)) = classify (set_tags r (pre ++ post)).
+Proof. exact classify_ignores_other_blocks. Qed.
+Print Assumptions classify_ignores_other_blocks.
+
+Theorem artboard_block_order_irrelevant : forall r r', Permutation (tags r) (tags r') -> gkind_of r = gkind_of r'.
+Proof. exact gkind_of_perm. Qed.
+Print Assumptions artboard_block_order_irrelevant.
+
+Example ex_other_block : ~ In 33 KIND_TAGS /\ ~ In 30 KIND_TAGS /\ Permutation [26; 6; 40] [40; 26; 6].
+Proof.
+  repeat split; try (vm_compute; intuition discriminate).
+  apply perm_trans with (26 :: 40 :: [6]); [apply perm_skip, perm_swap|apply perm_swap].
+Qed.
+
+(* ---- end to end through the file model (Psd/Model.v, Psd/Leaf.v): PSDImage.open of the bytes that PSD.write
+   produced.  For ANY well-formed document, opening the written bytes gives the tree of the records that were
+   written (write only updates channel lengths, which _init does not look at) *)
+Theorem open_bytes_saved : forall enc_s dec_s pad d bs n,
+  0 < pad -> wf_psd enc_s dec_s d = true -> write_psd enc_s pad d = Ok (bs, n) ->
+  open_bytes dec_s bs = open_psd d.
+Proof. exact open_bytes_saved. Qed.
+Print Assumptions open_bytes_saved.
+
+(* a file-level record built from an abstract one is read back as that abstract record: the divider kinds are
+   real 'lsct' / 'lsdk' SectionDividerSetting payloads parsed by the Leaf reader, the deciding keys tagged
+   blocks with ARBITRARY payloads *)
+Theorem abs_file : forall payload r, rep r -> abs_rec (file_rec payload r) = Ok r.
+Proof. exact abs_file. Qed.
+Print Assumptions abs_file.
+
+(* the layer tree survives the actual bytes, any depth: write the records of [f] (in _build_record_tree's
+   order) into a document, read the bytes back, open: [f].  Hypotheses: [f] is a tree opening can produce (WFc),
+   its records are representable (id fits the 32-bit 'lyid' field, tag list canonical), the charset codec
+   round-trips the empty name, and the write succeeds (all sizes fit their length fields) *)
+Theorem open_saved_tree : forall enc_s dec_s payload pad f bs n,
+  wf_name enc_s dec_s [] = true ->
+  Forall WFc f -> Forall rep (flatten f) -> 0 < pad ->
+  write_psd enc_s pad (doc_with (records_of_tree payload f)) = Ok (bs, n) ->
+  open_bytes dec_s bs = Opened f.
+Proof. intros enc_s dec_s payload pad f bs n Hn. exact (open_saved_tree_wf enc_s dec_s payload Hn pad f bs n). Qed.
+Print Assumptions open_saved_tree.
+
+(* all hypotheses hold for the depth-3 example, through real bytes (payload of deciding block c = [c; 7]) *)
+Example ex_rep : Forall rep (flatten ex_forest).
+Proof. repeat constructor. Qed.
+Example ex_open_saved :
+  match write_psd raw_codec 4 (doc_with (records_of_tree (fun c => [c; 7]) ex_forest)) with
+  | Ok (bs, _) => open_bytes raw_codec bs = Opened ex_forest
+  | Err _ => False
+  end.
+Proof. vm_compute. reflexivity. Qed.
